@@ -157,6 +157,11 @@ func buildImage(ref, class string, variant int) *PkgImage {
 	case "deep-template":
 		img.Files["manifest.yaml"] = []byte(manifestYAML(img.Name, false, "", false))
 		img.Files["a.yaml.gotmpl"] = []byte("{{ define \"r\" }}{{ template \"r\" . }}{{ end }}apiVersion: v1\nkind: ConfigMap\nmetadata:\n  name: deep\n  namespace: ns1\n  annotations:\n    package-operator.run/phase: alpha\ndata:\n  k: \"{{ template \"r\" . }}\"\n")
+	case "deep-include":
+		// a helper that first includes itself in a way that returns and then recurses for good: the include
+		// depth guard has to count the includes that are still running, not the ones that have returned
+		img.Files["manifest.yaml"] = []byte(manifestYAML(img.Name, false, "", false))
+		img.Files["a.yaml.gotmpl"] = []byte("{{- define \"walk\" -}}{{- if .leaf -}}x{{- else -}}{{ include \"walk\" (dict \"leaf\" true) }}{{ include \"walk\" . }}{{- end -}}{{- end -}}\napiVersion: v1\nkind: ConfigMap\nmetadata:\n  name: deep\n  namespace: ns1\n  annotations:\n    package-operator.run/phase: alpha\ndata:\n  k: \"{{ include \"walk\" (dict \"leaf\" false) }}\"\n")
 	case "manifest-list":
 		img.Files["manifest.yaml"] = []byte("- a\n- b\n")
 		img.Files["manifest.yml"] = []byte(manifestYAML(img.Name, false, "", false))
@@ -189,7 +194,7 @@ func (img *PkgImage) Admissible(spec map[string]any, scopeCluster bool, others i
 	switch img.Class {
 	case "pull-fails":
 		return false, "pull"
-	case "bad-condition-map", "torn", "torn-late", "corrupt-header", "empty-image", "garbage-yaml", "no-kind", "weird-annotations", "deep-template", "manifest-list", "non-string-annotation", "cel-nonbool", "cel-filter":
+	case "bad-condition-map", "torn", "torn-late", "corrupt-header", "empty-image", "garbage-yaml", "no-kind", "weird-annotations", "deep-template", "deep-include", "manifest-list", "non-string-annotation", "cel-nonbool", "cel-filter":
 		return false, "hostile"
 	case "no-manifest", "garbled-manifest":
 		return false, "load"
@@ -293,7 +298,7 @@ type PKGGen struct {
 	OpenShift bool
 }
 
-var hostileClasses = []string{"bad-condition-map", "torn", "torn-late", "corrupt-header", "empty-image", "garbage-yaml", "no-kind", "weird-annotations", "deep-template", "manifest-list", "non-string-annotation", "cel-nonbool", "cel-nonbool", "cel-filter"}
+var hostileClasses = []string{"bad-condition-map", "torn", "torn-late", "corrupt-header", "empty-image", "garbage-yaml", "no-kind", "weird-annotations", "deep-template", "deep-include", "manifest-list", "non-string-annotation", "cel-nonbool", "cel-nonbool", "cel-filter"}
 
 var imageClasses = []string{"valid", "valid", "needs-config", "multi", "no-manifest", "garbled-manifest", "bad-manifest", "bad-object", "dup-version", "scope-namespaced", "scope-cluster", "requires-config", "constraint-openshift", "constraint-version", "constraint-mixed", "constraint-met", "pull-fails", "big"}
 
